@@ -10,7 +10,9 @@ OPENER = re.compile(r"@(\w*)[ \t]*\{")
 WS = " \t\n\r"
 KEY_RE = re.compile(r"[A-Za-z0-9_:.+/\-À-￿]+\Z")
 FKEY_RE = re.compile(r"[^\W\d_][\w\-]*\Z")
-IDENT_RE = re.compile(r"[^\W\d_]\w*")
+# identifiers (macro names): a letter, then letters / digits / '_' and the punctuation BibTeX macro names commonly carry
+# (j-cacm, pub:ACM, acm.cs)
+IDENT_RE = re.compile(r"[^\W\d_][\w\-:.]*")
 TYPE_RE = re.compile(r"[^\W\d_]\w*\Z")
 DELIMS = '{}",='
 
